@@ -3,6 +3,7 @@
 // every case against direct Horner evaluation in __float128 at sampled outputs.
 #include <pthread.h>
 #include "lib.h"
+#include "ops.h"
 #include "oracle.h"
 
 enum { L_REIM, L_CPLX };
@@ -417,6 +418,62 @@ static void concurrent_construction_case(unsigned slot) {
   case_end(1);
 }
 
+// table life cycles: tables of both layouts, both directions and assorted sizes are created and deleted in a random,
+// non stack-like order; after every event each live table must still transform exactly like the long-lived table of the
+// same kind (a cache or pool behind the constructors must not hand out, free or overwrite storage that is in use)
+static void table_lifecycle_case(int native, unsigned rep) {
+  if (!case_begin(native ? "fft/ifft tables|create/delete interleaved" : "fft/ifft tables|create/delete interleaved,generic", "rep=%u", rep)) return;
+  rng_t* r = crng();
+  enum { SLOTS = 8 };
+  struct { void* t; int layout, inverse; uint64_t m; } s[SLOTS];
+  memset(s, 0, sizeof s);
+  static const uint64_t LM[] = {2, 8, 16, 32, 256, 2048, 4096, 16384};
+  const uint64_t m1 = LM[rng_u64(r) % ARRAY_LEN(LM)], m2 = LM[rng_u64(r) % ARRAY_LEN(LM)];
+  int saved = g_dispatch_native;
+  uint64_t checks = 0, events = 0;
+  for (int step = 0; step < 48; step++) {
+    const int k = (int)(rng_u64(r) % SLOTS);
+    const unsigned act = (unsigned)(rng_u64(r) % 8);
+    set_dispatch(native);
+    if (!s[k].t) {
+      s[k].m = act < 4 ? m1 : (act < 7 ? m2 : LM[rng_u64(r) % ARRAY_LEN(LM)]);
+      s[k].layout = (int)(rng_u64(r) & 1);
+      s[k].inverse = (int)(rng_u64(r) & 1);
+      const uint32_t nb = (uint32_t)(rng_u64(r) % 3);  // with 0, 1 or 2 built-in buffers
+      if (s[k].layout == L_REIM) s[k].t = s[k].inverse ? (void*)new_reim_ifft_precomp((uint32_t)s[k].m, nb) : (void*)new_reim_fft_precomp((uint32_t)s[k].m, nb);
+      else s[k].t = s[k].inverse ? (void*)new_cplx_ifft_precomp((uint32_t)s[k].m, nb) : (void*)new_cplx_fft_precomp((uint32_t)s[k].m, nb);
+      events++;
+    } else if (act < 3) {
+      free(s[k].t);  // delete_*_precomp is free()
+      s[k].t = 0;
+      events++;
+    }
+    set_dispatch(saved);
+    for (int q = 0; q < SLOTS; q++) {
+      if (!s[q].t || (rng_u64(r) & 1)) continue;
+      const uint64_t m = s[q].m;
+      double* x = malloc(2 * m * 8);
+      double* y = malloc(2 * m * 8);
+      for (uint64_t i = 0; i < 2 * m; i++) x[i] = y[i] = rng_unit(r) * 2 - 1;
+      run_table(s[q].layout, s[q].inverse, s[q].t, x);
+      run_table(s[q].layout, s[q].inverse, get_table(s[q].layout, s[q].inverse, native, m), y);
+      if (memcmp(x, y, 2 * m * 8)) {
+        viol("differential", "%s %s table (m=%" PRIu64 ", %s) transforms differently from the long-lived table of the same kind after %" PRIu64 " create/delete events of other tables", s[q].layout == L_REIM ? "reim" : "cplx", s[q].inverse ? "ifft" : "fft", m, native ? "native" : "generic", events);
+        step = 1000;
+        free(x); free(y);
+        break;
+      }
+      checks++;
+      free(x);
+      free(y);
+    }
+  }
+  for (int q = 0; q < SLOTS; q++) free(s[q].t);
+  cnt("table_lifecycle_checks", checks);
+  sample("%" PRIu64 " create/delete events on 8 slots, %" PRIu64 " transforms identical to the long-lived tables", events, checks);
+  case_end(checks > 0);
+}
+
 void run_C06(void) {
   const int th = G.thorough;
   // must stay first: see concurrent_construction_case
@@ -434,5 +491,17 @@ void run_C06(void) {
               if ((impl == I_LEAF_REF || impl == I_LEAF_AVX) && m > 16) continue;
               fft_case(layout, impl, inverse, m, fam, rep);
             }
+  }
+  for (int native = 1; native >= 0; native--)
+    for (unsigned rep = 0; rep < (th ? 300u : 16u); rep++) table_lifecycle_case(native, rep);
+  {
+    static const char* const CNAMES[] = {"reim_fft", "reim_ifft", "cplx_fft", "cplx_ifft", "reim_fft_ref", "reim_ifft_ref", "cplx_fft_ref", "cplx_ifft_ref", "reim_fft_avx2_fma", "reim_ifft_avx2_fma", "cplx_fft_avx2_fma", "cplx_ifft_avx2_fma"};
+    static const uint64_t CNS[] = {8, 64, 2048, 8192, 65536};
+    for (size_t i = 0; i < ARRAY_LEN(CNS); i++)
+      for (int cfg = DISP_NATIVE; cfg >= DISP_GENERIC; cfg--)
+        for (unsigned rep = 0; rep < (th ? 5u : 1u); rep++) {
+          if (!th && CNS[i] > 4096 && cfg == DISP_GENERIC) continue;
+          ops_concurrent_case("C06 entry points", CNAMES, (int)ARRAY_LEN(CNAMES), CNS[i], cfg, CNS[i] <= 256 ? 8 : 4, rep, "concurrent_entry_calls");
+        }
   }
 }
